@@ -84,13 +84,16 @@ class Run:
         self.outs = []
         self.procs = []
 
-    def start(self, p):
+    def start(self, p, crash=None):
         spec = {"total": self.sc["total"], "jobs": [self.sc["jobs"][i] for i in p["jobs"]]}
+        env = dict(self.env)
+        if crash:
+            env["VX_CRASH"] = crash
         outpath = self.ws / f"{p['name']}.{len(self.outs)}.out"
         out = open(outpath, "w")
         proc = subprocess.Popen(
             [PY, "-W", "ignore", str(VERIF / "vlib" / "realxp.py"), str(self.ws), p["name"], json.dumps(spec)],
-            env=self.env, stdout=out, stderr=subprocess.STDOUT, start_new_session=True, cwd=str(self.ws),
+            env=env, stdout=out, stderr=subprocess.STDOUT, start_new_session=True, cwd=str(self.ws),
         )
         self.outs.append(str(outpath))
         return proc
@@ -125,7 +128,19 @@ class Run:
         try:
             for p in sc["procs"]:
                 time.sleep(p["offset"])
-                self.procs.append(self.start(p))
+                self.procs.append(self.start(p, crash=sc.get("crash")))
+            if sc.get("crash"):
+                # the process kills itself at the chosen launch; then it is started again
+                pr = self.procs[0]
+                try:
+                    pr.wait(40)
+                except subprocess.TimeoutExpired:
+                    pass
+                if pr.poll() is not None and pr.returncode == -9:
+                    res["kills"].append({"at_records": len(self.loglines()), "sig": "KILL", "time": time.time() - t0, "crash": sc["crash"]})
+                    res["killed"] = 0
+                    time.sleep(sc.get("restart_delay", 0))
+                    self.procs[0] = self.start(sc["procs"][0])
             if sc["kill"]:
                 k = sc["kill"]
                 rounds = 2 if k.get("second_kill") else 1
